@@ -66,7 +66,9 @@ class AstBuilder:
             if out not in self.dsp.nodes:
                 func = token.compile()
                 kw = {
-                    'function_id': get_id(dmap, token.name),
+                    # A function id must never equal the id (expression) of an
+                    # operand added later, e.g. `=TRUE()+TRUE` or `=A1(1)+A1`.
+                    'function_id': get_id(dmap, '%s<fn>' % token.name),
                     'function': func,
                     'inputs': inputs or None,
                     'outputs': [out]
